@@ -42,24 +42,38 @@ func specPktName(pkt *defn.Pkt) enc.Name {
 	return nil
 }
 
+// Ghost send trace (C01/C02): how many packets have been handed to faces, and the last one.
+var verifSends int        // number of SendPacket calls so far
+var verifLastFace uint64  // face of the last SendPacket call
+var verifLastToken []byte // PIT token attached to the last packet sent
+
 // Every transmission goes through dispatch.Face.SendPacket. Its precondition is the scope rule, so every call site
 // in the forwarder, present or added later, carries the obligation "not (non-local face and /localhost name)".
 //
 //@ func (github.com/named-data/ndnd/fw/dispatch.Face).SendPacket
 //@   requires out.Pkt != nil && out.Pkt.L3 != nil && (out.Pkt.L3.Interest == nil) != (out.Pkt.L3.Data == nil)
 //@   requires !(self.Scope() == defn.NonLocal && specIsLocalhost(specPktName(out.Pkt)))
+//@   modifies verifSends, verifLastFace, verifLastToken
+//@   ensures verifSends == old(verifSends)+1 && verifLastFace == self.FaceID() && sameSlice(verifLastToken, out.PitToken)
 
 // Outgoing pipelines: the only callers of SendPacket besides the NextHopFaceId shortcut. Their contract is what the
 // strategies rely on; the scope rule itself is the precondition of SendPacket (discharged at the call sites inside).
 //
 //@ func (*Thread).processOutgoingData
 //@   requires packet != nil && packet.L3 != nil && packet.L3.Data != nil && packet.L3.Interest == nil
-//@   modifies t.NOutData, t.NSatisfiedInterests
+//@   modifies t.NOutData, t.NSatisfiedInterests, verifSends, verifLastFace, verifLastToken
+//@   ensures [at-most-one] verifSends == old(verifSends) || (verifSends == old(verifSends)+1 && verifLastFace == nexthop && sameSlice(verifLastToken, pitToken))
+//@   ensures [sent-iff-usable] (verifSends == old(verifSends)+1) == (dispatch.GetFace(nexthop) != nil && !(dispatch.GetFace(nexthop).Scope() == defn.NonLocal && specIsLocalhost(packet.L3.Data.NameV)))
 
 //@ func (*Thread).processOutgoingInterest
 //@   requires packet != nil && packet.L3 != nil && packet.L3.Interest != nil && packet.L3.Data == nil && pitEntry != nil
-//@   modifies t.NOutInterests, all(table.PitOutRecord), all(table.basePitEntry)
+//@   modifies t.NOutInterests, all(table.PitOutRecord), all(table.basePitEntry), verifSends, verifLastFace, verifLastToken
 //@   ensures result ==> !(dispatch.GetFace(nexthop).Scope() == defn.NonLocal && specIsLocalhost(packet.L3.Interest.NameV))
+//@   ensures [sent-iff-true] result ==> verifSends == old(verifSends)+1 && verifLastFace == nexthop
+//@   ensures [nothing-if-false] !result ==> verifSends == old(verifSends)
+//@   ensures [not-back] result ==> !(nexthop == inFace && dispatch.GetFace(nexthop).LinkType() != defn.AdHoc)
+//@   ensures [hop-limit] result && packet.L3.Interest.HopLimitV != nil && dispatch.GetFace(nexthop).Scope() == defn.NonLocal ==> *packet.L3.Interest.HopLimitV != 0
+//@   ensures [token-format] result ==> len(verifLastToken) == 6 && enc.SpecBE16(verifLastToken, 0) == uint64(uint16(t.threadID))
 
 var _ = dispatch.GetFace
 var _ table.PitEntry
@@ -72,7 +86,7 @@ var _ table.PitEntry
 //@   requires packet != nil && packet.L3 != nil && packet.L3.Interest != nil && packet.L3.Data == nil
 //@   assume t.pitCS != nil && t.deadNonceList != nil && t.deadNonceList.list != nil && t.strategies != nil && table.FibStrategyTable != nil
 //@   assume forall(func(k uint64) bool { return t.strategies[k] != nil })
-//@   modifies all(table.nameTreePitEntry), all(table.pitCsTreeNode), all(table.PitCsTree), t.deadNonceList.expirationQueue.pq, t.NInInterests, *packet.L3.Interest.HopLimitV, packet.L3.Data, packet.L3.Interest, packet.Raw, packet.Name, all(table.DeadNonceList), t.deadNonceList.list[*], all(table.basePitEntry)
+//@   modifies verifSends, verifLastFace, verifLastToken, all(table.nameTreePitEntry), all(table.pitCsTreeNode), all(table.PitCsTree), t.deadNonceList.expirationQueue.pq, t.NInInterests, *packet.L3.Interest.HopLimitV, packet.L3.Data, packet.L3.Interest, packet.Raw, packet.Name, all(table.DeadNonceList), t.deadNonceList.list[*], all(table.basePitEntry)
 //@   loop 2 invariant fresh(allowedNexthops) && len(allowedNexthops) <= rangeindex+1 && cap(allowedNexthops) == len(nexthops) && forallIn(0, len(nexthops), func(i int) bool { return nexthops[i] != nil })
 //@   ensures [reject-nonlocal-localhost] old(packet.IncomingFaceID != nil && dispatch.GetFace(*packet.IncomingFaceID) != nil && dispatch.GetFace(*packet.IncomingFaceID).Scope() == defn.NonLocal && specIsLocalhost(packet.L3.Interest.NameV)) ==> t.NInInterests == old(t.NInInterests)
 
@@ -80,5 +94,71 @@ var _ table.PitEntry
 //@   requires packet != nil && packet.L3 != nil && packet.L3.Data != nil && packet.L3.Interest == nil && sameSlice(packet.Name, packet.L3.Data.NameV)
 //@   assume t.pitCS != nil && t.deadNonceList != nil && t.deadNonceList.list != nil && t.strategies != nil && table.FibStrategyTable != nil
 //@   assume forall(func(k uint64) bool { return t.strategies[k] != nil })
-//@   modifies all(table.nameTreePitEntry), all(table.pitCsTreeNode), all(table.PitCsTree), all(table.basePitEntry), all(table.baseCsEntry), all(table.PitOutRecord), all(table.PitInRecord), t.deadNonceList.expirationQueue.pq, t.deadNonceList.list[*], t.NInData, t.NOutData, t.NSatisfiedInterests
+//@   modifies verifSends, verifLastFace, verifLastToken, all(table.nameTreePitEntry), all(table.pitCsTreeNode), all(table.PitCsTree), all(table.basePitEntry), all(table.baseCsEntry), all(table.PitOutRecord), all(table.PitInRecord), t.deadNonceList.expirationQueue.pq, t.deadNonceList.list[*], t.NInData, t.NOutData, t.NSatisfiedInterests
 //@   ensures [reject-nonlocal-localhost] old(packet.IncomingFaceID != nil && dispatch.GetFace(*packet.IncomingFaceID) != nil && dispatch.GetFace(*packet.IncomingFaceID).Scope() == defn.NonLocal && len(packet.Name) > 0 && specIsLocalhost(packet.L3.Data.NameV)) ==> t.NOutData == old(t.NOutData) && t.deadNonceList.list == old(t.deadNonceList.list)
+
+// ---------------------------------------------------------------------------------------
+// C01 / C02: strategies (what is sent where), stated over the ghost send trace
+// ---------------------------------------------------------------------------------------
+
+// SendData: at most one copy, to the face asked for, carrying the PIT token that face supplied; the pending Interest
+// of that face is consumed (its in-record is deleted) and no other in-record is touched.
+//
+//@ func (*StrategyBase).SendData
+//@   requires s.thread != nil && packet != nil && packet.L3 != nil && packet.L3.Data != nil && packet.L3.Interest == nil
+//@   requires pitEntry != nil && typeIs(pitEntry, "*table.nameTreePitEntry") && pitEntry.(*table.nameTreePitEntry).inRecords != nil
+//@   requires forall(func(k uint64) bool { return mapHas(pitEntry.(*table.nameTreePitEntry).inRecords, k) ==> pitEntry.(*table.nameTreePitEntry).inRecords[k] != nil })
+//@   modifies pitEntry.(*table.nameTreePitEntry).inRecords[*], s.thread.NOutData, s.thread.NSatisfiedInterests, verifSends, verifLastFace, verifLastToken
+//@   ensures [at-most-one] verifSends == old(verifSends) || (verifSends == old(verifSends)+1 && verifLastFace == nexthop)
+//@   ensures [token-echo] verifSends == old(verifSends)+1 && old(mapHas(pitEntry.(*table.nameTreePitEntry).inRecords, nexthop)) ==> sameSlice(verifLastToken, old(pitEntry.(*table.nameTreePitEntry).inRecords[nexthop].PitToken))
+//@   ensures [consumed] !mapHas(pitEntry.(*table.nameTreePitEntry).inRecords, nexthop)
+//@   ensures [others-kept] forall(func(k uint64) bool { return k != nexthop ==> mapHas(pitEntry.(*table.nameTreePitEntry).inRecords, k) == old(mapHas(pitEntry.(*table.nameTreePitEntry).inRecords, k)) && pitEntry.(*table.nameTreePitEntry).inRecords[k] == old(pitEntry.(*table.nameTreePitEntry).inRecords[k]) })
+
+//@ func (*StrategyBase).SendInterest
+//@   requires s.thread != nil && packet != nil && packet.L3 != nil && packet.L3.Interest != nil && packet.L3.Data == nil && pitEntry != nil
+//@   modifies s.thread.NOutInterests, all(table.PitOutRecord), all(table.basePitEntry), verifSends, verifLastFace, verifLastToken
+//@   ensures result ==> verifSends == old(verifSends)+1 && verifLastFace == nexthop && !(nexthop == inFace && dispatch.GetFace(nexthop).LinkType() != defn.AdHoc)
+//@   ensures !result ==> verifSends == old(verifSends)
+
+// Data served from the cache goes to the face of the Interest alone.
+//
+//@ func (*BestRoute).AfterContentStoreHit
+//@   requires s.thread != nil && packet != nil && packet.L3 != nil && packet.L3.Data != nil && packet.L3.Interest == nil
+//@   requires pitEntry != nil && typeIs(pitEntry, "*table.nameTreePitEntry") && pitEntry.(*table.nameTreePitEntry).inRecords != nil
+//@   requires forall(func(k uint64) bool { return mapHas(pitEntry.(*table.nameTreePitEntry).inRecords, k) ==> pitEntry.(*table.nameTreePitEntry).inRecords[k] != nil })
+//@   modifies pitEntry.(*table.nameTreePitEntry).inRecords[*], s.thread.NOutData, s.thread.NSatisfiedInterests, verifSends, verifLastFace, verifLastToken
+//@   ensures verifSends == old(verifSends) || (verifSends == old(verifSends)+1 && verifLastFace == inFace)
+
+//@ func (*Multicast).AfterContentStoreHit
+//@   requires s.thread != nil && packet != nil && packet.L3 != nil && packet.L3.Data != nil && packet.L3.Interest == nil
+//@   requires pitEntry != nil && typeIs(pitEntry, "*table.nameTreePitEntry") && pitEntry.(*table.nameTreePitEntry).inRecords != nil
+//@   requires forall(func(k uint64) bool { return mapHas(pitEntry.(*table.nameTreePitEntry).inRecords, k) ==> pitEntry.(*table.nameTreePitEntry).inRecords[k] != nil })
+//@   modifies pitEntry.(*table.nameTreePitEntry).inRecords[*], s.thread.NOutData, s.thread.NSatisfiedInterests, verifSends, verifLastFace, verifLastToken
+//@   ensures verifSends == old(verifSends) || (verifSends == old(verifSends)+1 && verifLastFace == inFace)
+
+// Incoming Data: one SendData per pending in-record; every in-record is consumed, so a repeated copy of the Data
+// finds none; nothing is sent to a face that held no in-record.
+//
+//@ func (*BestRoute).AfterReceiveData
+//@   requires s.thread != nil && packet != nil && packet.L3 != nil && packet.L3.Data != nil && packet.L3.Interest == nil
+//@   requires pitEntry != nil && typeIs(pitEntry, "*table.nameTreePitEntry") && pitEntry.(*table.nameTreePitEntry).inRecords != nil
+//@   requires forall(func(k uint64) bool { return mapHas(pitEntry.(*table.nameTreePitEntry).inRecords, k) ==> pitEntry.(*table.nameTreePitEntry).inRecords[k] != nil })
+//@   modifies pitEntry.(*table.nameTreePitEntry).inRecords[*], s.thread.NOutData, s.thread.NSatisfiedInterests, verifSends, verifLastFace, verifLastToken
+//@   ensures [all-consumed] forall(func(k uint64) bool { return !mapHas(pitEntry.(*table.nameTreePitEntry).inRecords, k) })
+//@   ensures [only-pending-faces] verifSends != old(verifSends) ==> old(mapHas(pitEntry.(*table.nameTreePitEntry).inRecords, verifLastFace))
+//@   loop 1 invariant pitEntry.(*table.nameTreePitEntry).inRecords == old(pitEntry.(*table.nameTreePitEntry).inRecords)
+//@   loop 1 invariant forall(func(k uint64) bool { return mapHas(pitEntry.(*table.nameTreePitEntry).inRecords, k) ==> old(mapHas(pitEntry.(*table.nameTreePitEntry).inRecords, k)) && pitEntry.(*table.nameTreePitEntry).inRecords[k] != nil })
+//@   loop 1 invariant forall(func(k uint64) bool { return visited(k) ==> !mapHas(pitEntry.(*table.nameTreePitEntry).inRecords, k) })
+//@   loop 1 invariant verifSends != old(verifSends) ==> old(mapHas(pitEntry.(*table.nameTreePitEntry).inRecords, verifLastFace))
+
+//@ func (*Multicast).AfterReceiveData
+//@   requires s.thread != nil && packet != nil && packet.L3 != nil && packet.L3.Data != nil && packet.L3.Interest == nil
+//@   requires pitEntry != nil && typeIs(pitEntry, "*table.nameTreePitEntry") && pitEntry.(*table.nameTreePitEntry).inRecords != nil
+//@   requires forall(func(k uint64) bool { return mapHas(pitEntry.(*table.nameTreePitEntry).inRecords, k) ==> pitEntry.(*table.nameTreePitEntry).inRecords[k] != nil })
+//@   modifies pitEntry.(*table.nameTreePitEntry).inRecords[*], s.thread.NOutData, s.thread.NSatisfiedInterests, verifSends, verifLastFace, verifLastToken
+//@   ensures [all-consumed] forall(func(k uint64) bool { return !mapHas(pitEntry.(*table.nameTreePitEntry).inRecords, k) })
+//@   ensures [only-pending-faces] verifSends != old(verifSends) ==> old(mapHas(pitEntry.(*table.nameTreePitEntry).inRecords, verifLastFace))
+//@   loop 1 invariant pitEntry.(*table.nameTreePitEntry).inRecords == old(pitEntry.(*table.nameTreePitEntry).inRecords)
+//@   loop 1 invariant forall(func(k uint64) bool { return mapHas(pitEntry.(*table.nameTreePitEntry).inRecords, k) ==> old(mapHas(pitEntry.(*table.nameTreePitEntry).inRecords, k)) && pitEntry.(*table.nameTreePitEntry).inRecords[k] != nil })
+//@   loop 1 invariant forall(func(k uint64) bool { return visited(k) ==> !mapHas(pitEntry.(*table.nameTreePitEntry).inRecords, k) })
+//@   loop 1 invariant verifSends != old(verifSends) ==> old(mapHas(pitEntry.(*table.nameTreePitEntry).inRecords, verifLastFace))
